@@ -2,6 +2,7 @@ SPECIFICATION Spec
 CONSTANTS
   Cfgs <- AllCfgs
   Letters <- AllLetters
-INVARIANTS TypeOK Total OpaqueForward NoWaitWithoutVideo KeyAdmits
+  StagedCfgs <- BothStaged
+INVARIANTS TypeOK StageOK Total OpaqueForward NoWaitWithoutVideo KeyAdmits
 VIEW View
 ACTION_CONSTRAINT Emit
